@@ -37,25 +37,38 @@ def run(rep, tier, rng):
         for k, proc in ((32, "hash_1to1"), (64, "hash_2to1")):
             b = rnd_bytes(rr, k)
             w = words_be(b)
-            cases.append("200000 | %s | | std | | use.std::crypto::hashes::sha256 begin exec.sha256::%s end" % (" ".join(map(str, w)), proc))
+            cases.append("200000 | %s 7 8 9 | | std | | use.std::crypto::hashes::sha256 begin exec.sha256::%s end" % (" ".join(map(str, w)), proc))
             queries.append("sha256 " + " ".join(map(str, w)))
-            meta.append(("sha256::" + proc, 8, words_be(hashlib.sha256(b).digest())))
+            meta.append(("sha256::" + proc, 11, words_be(hashlib.sha256(b).digest())))
+            # a second call in the same program (locals and memory of the first call are still around)
+            w0 = words_be(rnd_bytes(rr, k))
+            cases.append("400000 | %s %s 7 8 9 | | std | | use.std::crypto::hashes::sha256 begin exec.sha256::%s dropw dropw exec.sha256::%s end" % (" ".join(map(str, w0)), " ".join(map(str, w)), proc, proc))
+            queries.append("sha256 " + " ".join(map(str, w)))
+            meta.append(("sha256::" + proc + " (second call)", 11, words_be(hashlib.sha256(b).digest())))
         # BLAKE3: little-endian words
         for k, proc in ((32, "hash_1to1"), (64, "hash_2to1")):
             b = rnd_bytes(rr, k)
             w = [int.from_bytes(b[j:j + 4], "little") for j in range(0, k, 4)]
-            cases.append("200000 | %s | | std | | use.std::crypto::hashes::blake3 begin exec.blake3::%s end" % (" ".join(map(str, w)), proc))
+            cases.append("200000 | %s 7 8 9 | | std | | use.std::crypto::hashes::blake3 begin exec.blake3::%s end" % (" ".join(map(str, w)), proc))
             queries.append("blake3 " + " ".join(map(str, w)))
-            meta.append(("blake3::" + proc, 8, None))
+            meta.append(("blake3::" + proc, 11, None))
+            w0 = [rr.below(U32) for _ in range(k // 4)]
+            cases.append("400000 | %s %s 7 8 9 | | std | | use.std::crypto::hashes::blake3 begin exec.blake3::%s dropw dropw exec.blake3::%s end" % (" ".join(map(str, w0)), " ".join(map(str, w)), proc, proc))
+            queries.append("blake3 " + " ".join(map(str, w)))
+            meta.append(("blake3::" + proc + " (second call)", 11, None))
         # Keccak-256 of 64 bytes: lanes as (high, low) 32-bit halves, lane 0 on top
         b = rnd_bytes(rr, 64)
         lanes = [int.from_bytes(b[j:j + 8], "little") for j in range(0, 64, 8)]
         st = []
         for l in lanes:
             st += [l >> 32, l % U32]
-        cases.append("400000 | %s | | std | | use.std::crypto::hashes::keccak256 begin exec.keccak256::hash end" % " ".join(map(str, st)))
+        cases.append("400000 | %s 7 8 9 | | std | | use.std::crypto::hashes::keccak256 begin exec.keccak256::hash end" % " ".join(map(str, st)))
         queries.append("keccak " + " ".join(map(str, lanes)))
-        meta.append(("keccak256::hash", 8, "lanes"))
+        meta.append(("keccak256::hash", 11, "lanes"))
+        st0 = [rr.below(U32) for _ in range(16)]
+        cases.append("800000 | %s %s 7 8 9 | | std | | use.std::crypto::hashes::keccak256 begin exec.keccak256::hash dropw dropw exec.keccak256::hash end" % (" ".join(map(str, st0)), " ".join(map(str, st))))
+        queries.append("keccak " + " ".join(map(str, lanes)))
+        meta.append(("keccak256::hash (second call)", 11, "lanes"))
     # native RPO helper: elements in memory, hash_memory over [start, end): every word count 0..7 (and some longer)
     # at odd and even start addresses, non-zero memory on both sides of the range, sentinels below
     combos = [(nw, start) for nw in range(8) for start in (0, 1, 1000, 1001, 2**32 - 10)] + [(rr_n, 2 + rr_n % 2) for rr_n in (9, 12, 17)]
@@ -89,6 +102,8 @@ def run(rep, tier, rng):
             want = w2
         if extra == "rev789":
             want = list(reversed(want)) + [7, 8, 9]
+        elif k == 11:
+            want = want + [7, 8, 9]
         if nm == "native::hash_memory" and q == "rpo " and x.startswith("ERR AssertFailed"):
             # the empty range: hash_memory documents and enforces start_addr < end_addr
             dist["native::hash_memory:empty-range-rejected"] += 1
